@@ -85,6 +85,8 @@ type treePlan struct {
 	nStress   int         // unshaped fan-outs with one failing stage
 	nilSys    []*treeSpec // systematic small trees with stages whose Plan() returns nil
 	nNil      int         // random families around a nil-plan stage (see nilSpec)
+	regSys    []*treeSpec // systematic small trees with a stage that panics while it is registered
+	nReg      int         // random families around a stage that panics while it is registered (see regSpec)
 }
 
 func newTreePlan(seed int64, quick bool) *treePlan {
@@ -100,6 +102,8 @@ func newTreePlan(seed int64, quick bool) *treePlan {
 		p.nilSys = nilSystematicSpecs(3, []string{oOK, oErr, oPanicStr})
 		p.nilSys = append(p.nilSys, sampleSpecs(nilSystematicSpecs4(), 250, seed)...)
 		p.nNil = 700
+		p.regSys = regSystematicSpecs(3, []string{oOK, oErr})
+		p.nReg = 600
 	} else {
 		p.sys = systematicSpecs(4, []string{oOK, oErr, oPanicStr, oNFIgnored, oCompletePanic})
 		p.nRandom = 220_000
@@ -111,6 +115,9 @@ func newTreePlan(seed int64, quick bool) *treePlan {
 		p.nilSys = nilSystematicSpecs(3, []string{oOK, oErr, oPanicStr, oCompletePanic})
 		p.nilSys = append(p.nilSys, nilSystematicSpecs4()...)
 		p.nNil = 60_000
+		p.regSys = regSystematicSpecs(3, []string{oOK, oErr, oPanicStr, oNilPlan})
+		p.regSys = append(p.regSys, regSystematicSpecs4()...)
+		p.nReg = 40_000
 	}
 	return p
 }
@@ -119,6 +126,17 @@ func newTreePlan(seed int64, quick bool) *treePlan {
 func nilSystematicSpecs4() []*treeSpec {
 	var res []*treeSpec
 	for _, t := range nilSystematicSpecs(4, []string{oOK, oErr}) {
+		if t.N == 4 {
+			res = append(res, t)
+		}
+	}
+	return res
+}
+
+// regSystematicSpecs4: the trees with exactly four stages over {ok, Identifier() panics, typed nil}.
+func regSystematicSpecs4() []*treeSpec {
+	var res []*treeSpec
+	for _, t := range regSystematicSpecs(4, []string{oOK}) {
 		if t.N == 4 {
 			res = append(res, t)
 		}
@@ -142,16 +160,16 @@ func sampleSpecs(all []*treeSpec, n int, seed int64) []*treeSpec {
 }
 
 func (p *treePlan) items() int {
-	return len(p.sys) + p.nRandom + p.nShaped + p.nStress + len(p.nilSys) + p.nNil
+	return len(p.sys) + p.nRandom + p.nShaped + p.nStress + len(p.nilSys) + p.nNil + len(p.regSys) + p.nReg
 }
 
 // kind tells which family item i belongs to and its index inside the family.  The families are laid out one after
-// the other: sys, random, shaped, stress, nilsys, nil.
+// the other: sys, random, shaped, stress, nilsys, nil, regsys, reg.
 func (p *treePlan) kind(i int) (string, int) {
 	for _, f := range []struct {
 		name string
 		n    int
-	}{{"sys", len(p.sys)}, {"random", p.nRandom}, {"shaped", p.nShaped}, {"stress", p.nStress}, {"nilsys", len(p.nilSys)}, {"nil", p.nNil}} {
+	}{{"sys", len(p.sys)}, {"random", p.nRandom}, {"shaped", p.nShaped}, {"stress", p.nStress}, {"nilsys", len(p.nilSys)}, {"nil", p.nNil}, {"regsys", len(p.regSys)}, {"reg", p.nReg}} {
 		if i < f.n {
 			return f.name, i
 		}
@@ -168,6 +186,10 @@ func (p *treePlan) spec(i int) (*treeSpec, *randSrc) {
 		return p.sys[k], r
 	case "nilsys":
 		return p.nilSys[k], r
+	case "regsys":
+		return p.regSys[k], r
+	case "reg":
+		return regSpec(rr), r
 	case "random":
 		return randomSpec(rr, p.lim), r
 	case "shaped":
@@ -183,7 +205,7 @@ func (p *treePlan) spec(i int) (*treeSpec, *randSrc) {
 func gatedStages(t *treeSpec) int {
 	n := 0
 	for _, s := range t.stages() {
-		if len(s.Ops) > 0 && s.PlanKind != "nil" {
+		if len(s.Ops) > 0 && s.PlanKind != "nil" && !s.regPanics() {
 			n++
 		}
 	}
@@ -274,7 +296,7 @@ func (p *treePlan) runItem(i int, slot string, race bool, a *agg, logf func(stri
 		}
 		return
 	}
-	sysItem := kind == "sys" || kind == "nilsys"
+	sysItem := kind == "sys" || kind == "nilsys" || kind == "regsys"
 	gated := gatedStages(spec)
 	serialRuns := 0
 	if !race {
@@ -355,7 +377,7 @@ func completionOrder(out *caseOutcome) string {
 			} else {
 				sb.WriteString("CB(err),")
 			}
-		case evOpPanic, evNextPanic, evPlanPanic:
+		case evOpPanic, evNextPanic, evPlanPanic, evRegPanic:
 			sb.WriteString("P" + strconv.Itoa(e.Stage) + ",")
 		}
 	}
@@ -405,7 +427,8 @@ func childTrees(args []string) {
 		}
 		if kind, k := p.kind(i); race && maxItems >= 0 {
 			// under the race detector: the systematic trees, the first maxItems random trees, a share of the nil-plan families
-			if (kind == "random" && k >= maxItems) || kind == "shaped" || kind == "stress" || (kind == "nilsys" && k%4 != 0) || (kind == "nil" && k >= maxItems/2) {
+			if (kind == "random" && k >= maxItems) || kind == "shaped" || kind == "stress" || (kind == "nilsys" && k%4 != 0) || (kind == "nil" && k >= maxItems/2) ||
+				(kind == "regsys" && k%4 != 0) || (kind == "reg" && k >= maxItems/2) {
 				continue
 			}
 		}
